@@ -1172,6 +1172,16 @@ class Irc(IrcCommandDispatcher, log.Firewalled):
         """
         assert not self.getCallback(callback.name())
         self.callbacks.append(callback)
+        try:
+            self._sortCallbacks()
+        except Exception:
+            # The callback can't be ordered (eg. cyclic callBefore/callAfter);
+            # don't leave it registered at the end of the list.
+            self.callbacks.remove(callback)
+            raise
+
+    def _sortCallbacks(self):
+        """Topologically sorts self.callbacks according to callPrecedence."""
         # This is the new list we're building, which will be tsorted.
         cbs = []
         # The vertices are self.callbacks itself.  Now we make the edges.
